@@ -1,6 +1,7 @@
 package pd
 
 import (
+	"net"
 	"bytes"
 	"fmt"
 	"strings"
@@ -559,4 +560,106 @@ func c17DnnOracle(c c17Dnn) ev.Verdict {
 func TestC17_Dnn(t *testing.T) {
 	r := ev.New(t, "C17", "TestC17_Dnn")
 	ev.Run(t, r, genC17Dnn, c17DnnOracle)
+}
+
+// ---------------------------------------------------------------- PCO built with the Add… helpers
+//
+// The model form of an option list is usually not assembled by hand but with the helpers (the emulator's own PDU
+// session request does so). A drawn sequence of helper calls must give the list of TS 24.008 containers named by
+// the calls — in call order, one container per call, repeated kinds included — and Marshal/UnMarshal on it as before.
+
+type c17PCOCall struct {
+	Kind string   `json:"kind"` // v4req v6req ipalloc dns4 dns6 mtu
+	IP   HexBytes `json:"ip,omitempty"`
+	MTU  uint16   `json:"mtu,omitempty"`
+}
+type c17PCOHelpers struct {
+	Calls []c17PCOCall `json:"calls"`
+}
+
+func genC17PCOHelpers(t *rapid.T) c17PCOHelpers {
+	var c c17PCOHelpers
+	n := rapid.IntRange(0, 12).Draw(t, "ncalls")
+	for i := 0; i < n; i++ {
+		k := c17PCOCall{Kind: rapid.SampledFrom([]string{"v4req", "v6req", "ipalloc", "dns4", "dns4", "dns6", "dns6", "mtu"}).Draw(t, "kind")}
+		switch k.Kind {
+		case "dns4":
+			k.IP = rapid.SliceOfN(rapid.Byte(), 4, 4).Draw(t, "ip4")
+		case "dns6":
+			k.IP = rapid.SliceOfN(rapid.Byte(), 16, 16).Draw(t, "ip6")
+			if len(k.IP) == 16 && bytes.Equal(k.IP[:12], []byte{0, 0, 0, 0, 0, 0, 0, 0, 0, 0, 0xff, 0xff}) {
+				k.IP[0] = 0x20 // (an IPv4-mapped address is an IPv4 address to Go's net package: kept out of the v6 helper's domain)
+			}
+		case "mtu":
+			k.MTU = uint16(rapid.IntRange(0, 65535).Draw(t, "mtu"))
+		}
+		c.Calls = append(c.Calls, k)
+	}
+	return c
+}
+
+func c17PCOHelpersOracle(c c17PCOHelpers) ev.Verdict {
+	v := ev.Verdict{NT: len(c.Calls) >= 2, Classes: []string{fmt.Sprintf("pco-helpers/calls=%s", bucket(len(c.Calls)))}}
+	p := nasConvert.NewProtocolConfigurationOptions()
+	var want []refid.PCOUnit
+	seen := map[string]bool{}
+	for i, k := range c.Calls {
+		var err error
+		switch k.Kind {
+		case "v4req":
+			p.AddDNSServerIPv4AddressRequest()
+			want = append(want, refid.PCOUnit{ID: 0x000d})
+		case "v6req":
+			p.AddDNSServerIPv6AddressRequest()
+			want = append(want, refid.PCOUnit{ID: 0x0003})
+		case "ipalloc":
+			p.AddIPAddressAllocationViaNASSignallingUL()
+			want = append(want, refid.PCOUnit{ID: 0x000a})
+		case "dns4":
+			if len(k.IP) != 4 {
+				v.Skip = true
+				return v
+			}
+			err = p.AddDNSServerIPv4Address(net.IP(append([]byte{}, k.IP...)))
+			want = append(want, refid.PCOUnit{ID: 0x000d, Contents: k.IP})
+		case "dns6":
+			if len(k.IP) != 16 {
+				v.Skip = true
+				return v
+			}
+			err = p.AddDNSServerIPv6Address(net.IP(append([]byte{}, k.IP...)))
+			want = append(want, refid.PCOUnit{ID: 0x0003, Contents: k.IP})
+		case "mtu":
+			err = p.AddIPv4LinkMTU(k.MTU)
+			want = append(want, refid.PCOUnit{ID: 0x0010, Contents: []byte{byte(k.MTU >> 8), byte(k.MTU)}})
+		default:
+			v.Skip = true
+			return v
+		}
+		if err != nil {
+			v.Key, v.Err = "PCO.Add:error", fmt.Errorf("call %d (%s): %v", i, k.Kind, err)
+			return v
+		}
+		if seen[k.Kind] {
+			v.Classes = append(v.Classes, "pco-helpers/same-kind-twice")
+			v.NT = true
+		}
+		seen[k.Kind] = true
+	}
+	wantBytes, _ := refid.EncodePCO(want)
+	got := p.Marshal()
+	if !bytes.Equal(got, wantBytes) {
+		v.Key, v.Err = "PCO.Add:list", fmt.Errorf("after %d helper calls Marshal = %x, the containers the calls name are %x", len(c.Calls), got, wantBytes)
+		return v
+	}
+	q := nasConvert.NewProtocolConfigurationOptions()
+	if err := q.UnMarshal(append([]byte{}, got...)); err != nil || len(q.ProtocolOrContainerList) != len(want) {
+		v.Key, v.Err = "PCO.Add:roundtrip", fmt.Errorf("UnMarshal(Marshal(list built with helpers)): %v, %d units, want %d", err, len(q.ProtocolOrContainerList), len(want))
+	}
+	return v
+}
+
+func TestC17_PCOHelpers(t *testing.T) {
+	r := ev.New(t, "C17", "TestC17_PCOHelpers")
+	ev.Run(t, r, genC17PCOHelpers, c17PCOHelpersOracle)
 }
